@@ -357,5 +357,9 @@ def run(ctx):
 
 def replay(ctx, rp):
     case = rp["case"]
+    if case.get("stream") == "export_model":
+        return common.replay_by_rerun(ctx, rp, lambda c: export_model_stream(c, [case["case"]]))
+    if case.get("stream") == "named_dags":
+        return common.Stream.replay(ctx, rp)
     print(json.dumps(rp.get("detail"), default=str)[:3000])
     return 1
